@@ -367,7 +367,16 @@ def rule_cli_exit(em, rep, rid, listener_classes):
                 rep.violation(rid, key, 'the exception raised for a syntax error is not a CompilerError: the command line shows a '
                               'traceback instead of file:line:column and the documented error', m.loc(r))
     str_m = ce.methods.get('__str__')
-    if str_m is not None and all(w in norm(em.view(str_m).node) for w in ('filename', 'line', 'column')):
+    str_text = ''
+    if str_m is not None:
+        sv = em.view(str_m)
+        str_text = norm(sv.node)
+        for x in own_nodes(sv.node):          # format strings kept in module-level constants
+            if isinstance(x, ast.Name):
+                r = em.repo.resolve_name(sv, x.id)
+                if r and r[0] == 'var' and isinstance(r[2], ast.Constant) and isinstance(r[2].value, str):
+                    str_text += ' ' + r[2].value
+    if str_m is not None and all(w in str_text for w in ('filename', 'line', 'column')):
         rep.ok(rid, 'errors.CompilerError.__str__', 'formats filename:line:column:message', ce.loc())
     else:
         rep.violation(rid, 'errors.CompilerError.__str__', 'the error text lacks file name, line or column', ce.loc())
